@@ -404,8 +404,18 @@ def check_family_dist(ctx, fam, P, r, nb, units, do_sample=True):
     B = bparams(fam, P)
     shape = next(iter(B.values())).shape
     x, tags = gen_points(fam, P, dist, nb, r)
-    lp = np.asarray(dist.log_prob(jnp.asarray(x)), dtype=np.float64)
-    assert lp.shape == (nb,), (lp.shape, nb)
+    pt = ptag(P)
+    try:
+        lp = np.asarray(dist.log_prob(jnp.asarray(x)), dtype=np.float64)
+        shape_err = None if lp.shape == (nb,) and tuple(dist.shape) == tuple(shape) else f"log_prob of {nb} points of shape {shape} has shape {lp.shape}; dist.shape = {dist.shape}"
+    except Exception as e:  # a valid point of the event shape must be accepted
+        shape_err = f"log_prob raised {type(e).__name__}: {str(e)[:200]}"
+    if shape_err:
+        units[0].count((fam, pt, "shape"), nontrivial=True, tag=f"{fam}:{pt}:shape")
+        ctx.violation(sig=f"{FAMS[fam][0]}.log_prob:shape", what=f"{FAMS[fam][0]} with parameter shapes {pt} (event shape {shape} by NumPy broadcasting): {shape_err}",
+                      case=case_json(fam, P, x[0]), found_input=True, unit="U1-log_prob", expected=f"one value per point, event shape {shape}", observed=shape_err,
+                      broken="correspondence U1/U2 (shape)", reproducer=reproducer(fam, P, x[0]))
+        return dist
     op = obj_params(fam, dist)
     reqs = []
     for b in range(nb):
@@ -421,7 +431,7 @@ def check_family_dist(ctx, fam, P, r, nb, units, do_sample=True):
     out = ctx.model(reqs)
     frag = fragile(fam, P, x)
     ref = reference_logpdf(fam, P, x)
-    pt = ptag(P)
+    rows = []
     for b in range(nb):
         ma, mb = common_fparse(out[2 * b]), common_fparse(out[2 * b + 1])
         v = float(lp[b])
@@ -431,7 +441,6 @@ def check_family_dist(ctx, fam, P, r, nb, units, do_sample=True):
             # division, bit-comparable with the model at object level) and leave the oracle out
             v = float(dist.log_prob(jnp.asarray(x[b])))
         key = (fam, pt, hx(list(P.values())[0]), hx(x[b]), hx(list(P.values())[-1]))
-        cj = case_json(fam, P, x[b])
         ora_msg = ("log_prob returned NaN" if v != v else "") if frag[b] else oracle_logp(v, float(ref[b]), x[b])
         uo.count(key, nontrivial=not np.isnan(x[b]).any() and not frag[b], tag=f"{fam}:{tags[b]}")
         oka = frag[b] or agree(ma, v)
@@ -439,16 +448,21 @@ def check_family_dist(ctx, fam, P, r, nb, units, do_sample=True):
         if not frag[b]:
             u1a.count(key, nontrivial=True, tag=f"{fam}:{pt}:{tags[b]}")
         u1b.count(key, nontrivial=True, tag=f"{fam}:{tags[b]}" + (":ulp-of-upper-edge" if frag[b] else ""))
-        if not (oka and okb) or ora_msg:
-            u1a.disagreements += not oka
-            u1b.disagreements += not okb
+        u1a.disagreements += not oka
+        u1b.disagreements += not okb
+        rows.append((b, v, ma, mb, oka and okb, ora_msg))
+        if b in (0, nb - 1) and len(ctx.samples) < 10 and r.random() < 0.1:
+            ctx.sample({"case": case_json(fam, P, x[b]), "implementation": v, "model": mb, "reference": float(ref[b])})
+    # a model disagreement without its own failing oracle is reported separately only if the oracle fails nowhere on this
+    # distribution (otherwise the failing inputs of the same distribution are the concrete witnesses)
+    any_oracle = any(row[5] for row in rows)
+    for b, v, ma, mb, okm, ora_msg in rows:
+        if ora_msg or (not okm and not any_oracle):
             what = (f"{FAMS[fam][0]}.log_prob: " + (ora_msg if ora_msg else f"model (constructor level {ma!r}, object level {mb!r}) != implementation {v!r}")
                     + f" at a point tagged {tags[b]}, parameter shapes {pt}")
-            ctx.violation(sig=f"{FAMS[fam][0]}.log_prob:{'oracle' if ora_msg else 'model'}:{tags[b].split('-')[0]}", what=what, case=cj,
+            ctx.violation(sig=f"{FAMS[fam][0]}.log_prob:{'oracle' if ora_msg else 'model'}:{tags[b].split('-')[0]}", what=what, case=case_json(fam, P, x[b]),
                           found_input=bool(ora_msg), unit="U1-log_prob", expected={"model_ctor": ma, "model_obj": mb, "reference": float(ref[b])},
                           observed=v, broken=f"correspondence U1 / theorem C05_{fam}_spec", reproducer=reproducer(fam, P, x[b]))
-        if b in (0, nb - 1) and len(ctx.samples) < 10 and r.random() < 0.1:
-            ctx.sample({"case": cj, "implementation": v, "model": mb, "reference": float(ref[b])})
     # ---- U2 accessors ----
     acc = out[2 * nb].split(" ")
     mshape = tuple(int(t) for t in acc[0].split(",")) if acc[0] != "-" else ()
@@ -942,6 +956,32 @@ def replay(ctx, rep):
             print(a, got.tolist(), "constructor", np.asarray(ctor).tolist())
             ok = ok and got.shape == np.shape(ctor) and bool(np.all(np.abs(got - ctor) <= 1e-12 * np.maximum(np.abs(ctor), np.abs(B.get("minval", 0)) + 1e-300)))
         return ok
+    if kind == "mixture":
+        from harness.common import fparse
+        fam = c["family"]
+        dec = lambda d: np.array([fparse(t) for t in d["hex"].split(",")], dtype=np.float64).reshape(d["shape"])
+        Ps = [{k: dec(v) for k, v in comp.items()} for comp in c["components"]]
+        w = np.array([fparse(t) for t in c["weights"].split(",")])
+        k = float.fromhex(c["k"])
+        x = dec(c["x"])
+        names = FAMS[fam][1]
+        cls = getattr(s["fd"], FAMS[fam][0])
+        comp = s["eqx"].filter_vmap(lambda kw: cls(**kw))({n: jnp.asarray(np.stack([P[n] for P in Ps])) for n in names})
+        v1 = float(s["fd"].VmapMixture(comp, jnp.asarray(w)).log_prob(jnp.asarray(x)))
+        v2 = float(s["fd"].VmapMixture(comp, jnp.asarray(k * w)).log_prob(jnp.asarray(x)))
+        rv = float(mixture_ref(fam, Ps, w, x[None])[0])
+        print("mixture log_prob", v1, "with weights rescaled by", k, ":", v2, "reference (weight-normalised scipy mixture)", rv)
+        return not oracle_logp(v1, rv, x) and v2 == v2 and agree(v1, v2)
+    if kind == "mvn":
+        from harness.common import fparse
+        d = c["d"]
+        cov = np.array([fparse(t) for t in c["cov"].split(",")]).reshape(d, d)
+        loc = np.array([fparse(t) for t in c["loc"].split(",")]).reshape(c["loc_shape"])
+        x = np.array([fparse(t) for t in c["x"].split(",")])
+        v = float(s["fd"].MultivariateNormal(jnp.asarray(loc), jnp.asarray(cov)).log_prob(jnp.asarray(x)))
+        rv = float(s["st"].multivariate_normal(np.broadcast_to(loc, (d,)), cov).logpdf(x))
+        print("MultivariateNormal.log_prob", v, "scipy", rv)
+        return v == v and agree(rv, v)
     print("replay of this case kind re-runs the whole unit: ./check C05", c.get("kind"))
     sub = Sub(ctx)
     {"mixture": run_mixtures, "mixture-ks": run_mixtures, "mixlp": run_mixtures, "mvn": run_mvn, "mvn-acc": run_mvn, "stdnormal": run_families}.get(kind, run_families)(sub)
